@@ -306,6 +306,56 @@ func runC10(t *mon.T, raw json.RawMessage) {
 			}
 		}
 	}
+	// Reader.DataReader is the payload, byte for byte, for every reader it hands out: a data reader that is
+	// part-way through stays where its caller left it while the same Reader serves Roots(), Inspect() and
+	// further data readers
+	{
+		forms := map[string][]byte{"v1": x}
+		for vn, v2 := range v2variants {
+			forms[vn] = v2
+		}
+		for vn, f := range forms {
+			rd, err := carv2.NewReader(bytes.NewReader(f))
+			if err != nil {
+				t.Violatef("Reader.DataReader/"+vn+"/error", "NewReader(%s) failed: %v", vn, err)
+				continue
+			}
+			dr1, err := rd.DataReader()
+			if err != nil {
+				t.Violatef("Reader.DataReader/"+vn+"/error", "DataReader(%s) failed: %v", vn, err)
+				continue
+			}
+			head := make([]byte, r.Intn(len(x)+1))
+			if _, err := io.ReadFull(dr1, head); err != nil {
+				t.Violatef("Reader.DataReader/"+vn+"/error", "reading %d payload bytes of %s failed: %v", len(head), vn, err)
+				continue
+			}
+			rd.Roots()
+			if r.Intn(2) == 0 {
+				rd.Inspect(r.Intn(2) == 0)
+			}
+			dr2, err2 := rd.DataReader()
+			var got2 []byte
+			if err2 == nil {
+				part := make([]byte, r.Intn(len(x)+1))
+				io.ReadFull(dr2, part)
+				got2 = part
+			}
+			rest, rerr := io.ReadAll(dr1)
+			if err2 == nil {
+				rest2, _ := io.ReadAll(dr2)
+				got2 = append(got2, rest2...)
+			}
+			t.Events(2)
+			t.Cover("data-reader-used-across-other-calls-on-its-reader")
+			if got := append(head, rest...); rerr != nil || !bytes.Equal(got, x) {
+				t.Violatef("Reader.DataReader/"+vn+"/payload-differs", "a data reader of %s read in two parts with Roots()/Inspect()/DataReader() called in between gave %d bytes (err %v), payload has %d; first difference at %d", vn, len(got), rerr, len(x), lab.FirstDiff(got, x))
+			}
+			if err2 != nil || !bytes.Equal(got2, x) {
+				t.Violatef("Reader.DataReader/"+vn+"/second-reader-differs", "a second data reader of %s gave %d bytes (err %v), payload has %d", vn, len(got2), err2, len(x))
+			}
+		}
+	}
 	// a CARv1 source is refused and the destination is not touched
 	{
 		src, dst := filepath.Join(dir, "v1src.car"), filepath.Join(dir, "v1dst.car")
@@ -426,7 +476,7 @@ func init() {
 	Register(&mon.Check{
 		ID:          "C10",
 		Level:       "exploration",
-		Rule:        "cases = seeded CARv1 payloads x; per case: WrapV1 (option matrix) and WrapV1File (fresh and over a larger file), ExtractV1File of 4 CARv2 renderings (wrap(x), padded+index, index-less, index without padding) into 7 destination states (absent, larger, smaller, in place, and in place through another spelling of the path, a symlink and a hard link), WrapV1 of a null-padded source with ZeroLengthSectionAsEOF, ExtractV1File of a CARv1, ReplaceRootsInFile on v1/padded v2/index-less v2 with 5-6 replacement root lists of equal and different encoded size; pure byte comparisons",
+		Rule:        "cases = seeded CARv1 payloads x; per case: WrapV1 (option matrix) and WrapV1File (fresh and over a larger file), ExtractV1File of 4 CARv2 renderings (wrap(x), padded+index, index-less, index without padding) into 7 destination states (absent, larger, smaller, in place, and in place through another spelling of the path, a symlink and a hard link), Reader.DataReader of x and of each rendering read in two parts with Roots()/Inspect()/a second DataReader() on the same Reader in between (both readers must give x), WrapV1 of a null-padded source with ZeroLengthSectionAsEOF, ExtractV1File of a CARv1, ReplaceRootsInFile on v1/padded v2/index-less v2 with 5-6 replacement root lists of equal and different encoded size; pure byte comparisons",
 		Assumptions: []string{"reference encoder (refcar) for CARv2 renderings and spliced headers"},
 		Gen:         genC10,
 		Run:         runC10,
